@@ -7,7 +7,8 @@ From Model Require Import CacheConc.
 Import ListNotations.
 
 Definition all_pcs : list pc := [
-  SG301; SG302; SG303; SG306; SG308; F93; F94; F99; F100; F102; F104; F105; F106; F107; F108; F109; F110; F111; F112; F114; F115; F116; F117; F118; F119; F121; F122; F123; F124; F125; F126; M951; M954; SP311; P152; P153; M956; SQ314; Q162; C1397; C1400; SK317; SK318; SK319; SK320; SK322; K171; K172; K177; K178; K180; K181a; K181t; K181; K181r; U192; U193; U195; U196; U197; U198; U200; U201; U202; U204; U205; U209; U210; U214; U216; X1072; X1074; X1078; X1079; SE325; SE326; SE327; SE328; E232; E234; E235; E236; E237; E238; E239; E241; X1083; SW364; SW367; SW368; A248; A250; A251; A252; A253; A254; A256; Z681; Z682; Z683; SL375; SL380; SL381; SL383; L272; L273; L275; L276; L279; L280; L280n; L281; L283; L282].
+  SG301; SG302; SG303; SG306; SG308; F93; F94; F99; F100; F102; F104; F105; F106; F107; F108; F109; F110; F111; F112; F114; F115; F116; F117; F118; F119; F121; F122; F123; F124; F125; F126; M951; M954; SP311; P152; P153; M956; SQ314; Q162; C1397; C1400; SK317; SK318; SK319; SK320; SK322; K171; K172; K177; K178; K180; K181a; K181t; K181; K181r; U192; U193; U195; U196; U197; U198; U200; U201; U202; U204; U205; U209; U210; U214; U216; X1072; X1074; X1078; X1079; SE325; SE326; SE327; SE328; E232; E234; E235; E236; E237; E238; E239; E241; X1083; SW364; SW367; SW368; A248; A250; A251; A252; A253; A254; A256; Z681; Z682; Z683; SL375; SL380; SL381; SL383; L272; L273; L275; L276; L279; L280; L280n; L281; L283; L282;
+  F129; F130; F131; F132; F133; F134; F135; F136; F137; F138; F139; F141; F142; F143; F144; F145; P155; K183a; K183t; K183; K183r; E233; A249; L278].
 
 Definition pc_name (p : pc) : string :=
   match p with
@@ -126,6 +127,30 @@ Definition pc_name (p : pc) : string :=
   | L281 => "L281"
   | L283 => "L283"
   | L282 => "L282"
+  | F129 => "F129"
+  | F130 => "F130"
+  | F131 => "F131"
+  | F132 => "F132"
+  | F133 => "F133"
+  | F134 => "F134"
+  | F135 => "F135"
+  | F136 => "F136"
+  | F137 => "F137"
+  | F138 => "F138"
+  | F139 => "F139"
+  | F141 => "F141"
+  | F142 => "F142"
+  | F143 => "F143"
+  | F144 => "F144"
+  | F145 => "F145"
+  | P155 => "P155"
+  | K183a => "K183a"
+  | K183t => "K183t"
+  | K183 => "K183"
+  | K183r => "K183r"
+  | E233 => "E233"
+  | A249 => "A249"
+  | L278 => "L278"
   end%string.
 
 (* what the statement at a program point does to the lock and the two dicts, as the model's step
@@ -171,6 +196,15 @@ Definition pc_kind (p : pc) : skind :=
   | L276 => KReadStrong
   | L283 => KRelease
   | L279 => KReadWeak
+  | F130 => KReadWeak
+  | F135 => KAcquire
+  | F137 => KReadWeak
+  | F142 => KWriteWeak
+  | F144 => KRelease
+  | P155 => KWriteWeak
+  | K183a => KAcquire
+  | K183 => KWriteWeak
+  | K183r => KRelease
   | _ => KOther
   end.
 
@@ -181,6 +215,7 @@ Definition holds (p : pc) : bool :=
   | F109 | F110 | F111 | F112 | F114 | F116 | F117 | F118 | F119 | F121 | F122 | F123 | F124 | F125
   | M951 | M954 | SP311 | P152 | P153 | M956 | SQ314 | Q162
   | K181t | K181 | K181r
+  | F136 | F137 | F138 | F139 | F141 | F142 | F143 | F144 | P155 | K183t | K183 | K183r | L278
   | L273 | L275 | L276 | L279 | L280 | L280n | L281 | L283
   | U193 | U195 | U196 | U197 | U198 | U200 | U201 | U202 | U204 | U205 | U209 | U210 | U214 | U216
   | E235 | E236 | E237 | E238 | E239 | E241
@@ -191,46 +226,49 @@ Definition holds (p : pc) : bool :=
 Definition wholds (p : pc) : bool :=
   match p with
   | X1074 | X1078 | X1079 | SE325 | SE326 | SE327 | SE328
-  | E232 | E234 | E235 | E236 | E237 | E238 | E239 | E241 | X1083 => true
+  | E232 | E233 | E234 | E235 | E236 | E237 | E238 | E239 | E241 | X1083 => true
   | _ => false
   end.
 (* after a miss under the lock: the strong dict has no entry for the thread's id *)
 Definition sabs (p : pc) : bool :=
   match p with
-  | F111 | F112 | F116 | F117 | F118 | F119 | F121 | F122 | F123 | F124 | M951 | M954 | SP311 | P152 | P153 => true
+  | F111 | F112 | F116 | F117 | F118 | F119 | F121 | F122 | F123 | F124 | M951 | M954 | SP311 | P152 | P153 | P155 => true
   | _ => false
   end.
 (* ... and the weak dict has none either (I5) *)
 Definition wabs (p : pc) : bool :=
   match p with
-  | F118 | F119 | F122 | F123 | F124 | M951 | M954 | SP311 | P152 | P153 => true
+  | F118 | F119 | F122 | F123 | F124 | M951 | M954 | SP311 | P152 | P153 | F138 | F139 | F143 | P155 => true
   | _ => false
   end.
 (* `val` is the outcome of the lookup (or put) the ghost epoch t_ep belongs to *)
 Definition tagged (p : pc) : bool :=
   match p with
-  | F114 | F115 | F121 | F122 | F124 | F125 | F126 | M956 | SQ314 | Q162 | K181r => true
+  | F114 | F115 | F121 | F122 | F124 | F125 | F126 | M956 | SQ314 | Q162 | K181r
+  | F131 | F132 | F141 | F144 | F145 | K183r => true
   | _ => false
   end.
 (* `val` cannot be None *)
 Definition valdef (p : pc) : bool :=
   match p with
-  | F114 | F115 | F124 | F125 | F126 | M954 | SP311 | P152 | P153 | K181r => true
+  | F114 | F115 | F124 | F125 | F126 | M954 | SP311 | P152 | P153 | K181r | F132 | F144 | F145 | P155 | K183r => true
   | _ => false
   end.
 (* `self` is an object *)
 Definition selfdef (p : pc) : bool :=
   match p with
   | C1400 | SK317 | SK318 | SK319 | SK320 | SK322 | K171 | K172 | K177 | K178 | K180 | K181a | K181t | K181
+  | K183a | K183t | K183
   | X1072 | X1074 | X1078 | X1079 | SE325 | SE326 | SE327 | SE328
-  | E232 | E234 | E235 | E236 | E237 | E238 | E239 | E241 | X1083 | Z683 => true
+  | E232 | E233 | E234 | E235 | E236 | E237 | E238 | E239 | E241 | X1083 | Z683 => true
   | _ => false
   end.
 
 (* between the INSERT and the registration of a new instance: `self` is the new instance, `id` its id *)
 Definition creating (p : pc) : bool :=
   match p with
-  | C1400 | SK317 | SK318 | SK319 | SK320 | SK322 | K171 | K172 | K177 | K178 | K180 | K181a | K181t | K181 => true
+  | C1400 | SK317 | SK318 | SK319 | SK320 | SK322 | K171 | K172 | K177 | K178 | K180 | K181a | K181t | K181
+  | K183a | K183t | K183 => true
   | _ => false
   end.
 
@@ -341,6 +379,16 @@ Definition created_race (s : state) (t : nat) : bool :=
   | _, _ => true
   end.
 
+(* cache=False, get: `del self.expiredCache[id]` (line "F142", under the lock) after the lock holder has seen the
+   referent of the entry dead at line "F137".  The partial theorems take from the guard that the entry is still there
+   and its referent still dead (nobody but the lock holder writes the weak dict, and a dead referent never comes
+   back to life -- both true of every run replayed so far, the replay checks this conjunct; not proved) *)
+Definition seen_dead_still (s : state) (t : nat) : bool :=
+  match dget (s_weak s) (t_id (s_thr s t)) with
+  | Some o => negb (aliveb s o)
+  | None => false
+  end.
+
 (* the steps the partial theorem is about: operations of the core set, no cull triggered, and not
    the racing created() *)
 Definition guard (s : state) (t : nat) : bool :=
@@ -352,6 +400,8 @@ Definition guard (s : state) (t : nat) : bool :=
             | _ => true
             end
   | K181 => negb (created_race s t)
+  | K183 => negb (created_race s t)              (* the same write when caching is off *)
+  | F142 => seen_dead_still s t
   | X1072 => o_init (s_heap s (self_of th))     (* expire() of an instance still under construction elsewhere *)
   | _ => true
   end.
@@ -421,6 +471,31 @@ Record Inv (s : state) : Prop := {
   inv_scope : forall t, t < s_n s -> core_pc (t_pc (s_thr s t)) = true
 }.
 
+(* ------------------------------------------------------------------ the two modes *)
+(* statements inside a branch taken only when doCache is true / false *)
+Definition doc_only (p : pc) : bool :=
+  match p with
+  | F94 | F99 | F100 | F102 | F104 | F105 | F106 | F107 | F108 | F109 | F110 | F111 | F112 | F114 | F115 | F116 | F117
+  | F118 | F119 | F121 | F122 | F123 | F124 | F125 | F126 | P153
+  | K172 | K177 | K178 | K180 | K181a | K181t | K181 | K181r
+  | U192 | U193 | U195 | U196 | U197 | U198 | U200 | U201 | U202 | U204 | U205 | U209 | U210 | U214 | U216
+  | E234 | E235 | E236 | E237 | E238 | E239 | E241
+  | A250 | A251 | A252 | A253 | A254 | A256 | L276 => true
+  | _ => false
+  end.
+Definition noc_only (p : pc) : bool :=
+  match p with
+  | F129 | F130 | F131 | F132 | F133 | F134 | F135 | F136 | F137 | F138 | F139 | F141 | F142 | F143 | F144 | F145
+  | P155 | K183a | K183t | K183 | K183r | E233 | A249 | L278 => true
+  | _ => false
+  end.
+(* every thread is inside the branches of the connection's mode; without caching the strong dict does not exist *)
+Record Aux (s : state) : Prop := {
+  aux_doc : forall t, t < s_n s -> doc_only (t_pc (s_thr s t)) = true -> s_docache s = true;
+  aux_noc : forall t, t < s_n s -> noc_only (t_pc (s_thr s t)) = true -> s_docache s = false;
+  aux_strong : s_docache s = false -> s_strong s = []
+}.
+
 (* ------------------------------------------------------------------ what the property asks of every state *)
 (* a result kept by the application *)
 Definition result_of (s : state) (t : nat) (r : res) : Prop := t < s_n s /\ In r (t_slots (s_thr s t)).
@@ -441,6 +516,16 @@ Definition all_finished (s : state) : Prop := forall t, t < s_n s -> finished (s
 (* the full statements (false for the unchanged code: see the refuted witnesses) *)
 Definition C09_inv_full : Prop :=
   forall freq frac rows progs s, reach (init freq frac rows progs) s -> Safe s.
+(* the same two for a cache=False connection *)
+Definition C09_inv_nocache_full : Prop :=
+  forall freq frac rows progs s, reach (initc false freq frac rows progs) s -> Safe s.
+Definition C09_quiescent_nocache_full : Prop :=
+  forall freq frac rows progs s, reach (initc false freq frac rows progs) s -> all_finished s ->
+    s_lock s = None /\
+    (forall t x, result_of s t (RExc x) -> x = NotFound) /\
+    (forall t t' i o o' e, result_of s t (RObj o i e) -> result_of s t' (RObj o' i e) -> o = o') /\
+    (forall t i o, result_of s t (RObj o i (s_epoch s i)) ->
+       dget (s_strong s) i = Some o \/ dget (s_weak s) i = Some o).
 Definition C09_quiescent_full : Prop :=
   forall freq frac rows progs s, reach (init freq frac rows progs) s -> all_finished s ->
     s_lock s = None /\
